@@ -155,6 +155,14 @@ def main(argv=None):
                                 "unit": r["unit"], "note": r["error"][:200], "failed": [{"reason": r["error"][:200]}]})
     failing = [o for o in obligations if o["status"] != "PROVED"]
     failing.sort(key=lambda o: 0 if o["status"] == "REFUTED" else 1)
+    # within each class (REFUTED first), one obligation per unit before the second of any unit: the replay cap below is then spent on
+    # distinct units / functions instead of on many obligations of the first unit (a unit's replay evaluates all its clauses anyway)
+    _nth = {}
+    for o in failing:
+        _key = (o["status"] == "REFUTED", o.get("unit"))
+        _nth[_key] = _nth.get(_key, 0) + 1
+        o["_nth_of_unit"] = _nth[_key]
+    failing.sort(key=lambda o: (0 if o["status"] == "REFUTED" else 1, o.pop("_nth_of_unit")))
     import re as _re
     from concurrent.futures import ThreadPoolExecutor
     REPLAY_CAP = int(os.environ.get("PYVC_REPLAY_CAP", "24"))
